@@ -2,7 +2,7 @@
 import re
 from fractions import Fraction as Fr
 
-from . import alg, sym, poly
+from . import alg, sym, poly, facts
 from .common import Session, check_value, impl_methods, apps_of, atoms_of
 from .sym import Struct, Tuple, Ite, Opaque
 from .poly import RatFunc
@@ -69,6 +69,7 @@ def run(F, rep, tier="quick", extra=None, only=None):
     rep.floor("format pairs", n, 49)
     check_constants(F, rep, S)
     check_into_format(F, rep)
+    check_format_from_impls(F, rep)
     return {"level": "proof"}
 
 
@@ -224,5 +225,46 @@ def _field_map(v, prefix, problems):
             problems.append("%s is built from %s" % (prefix, sorted(at)))
         elif not aps or not all(a.startswith(CONVERTERS) or "into_format" in a or "from_format" in a for a in aps):
             problems.append("%s is not converted through FromStimulus/FromAngle: %s" % (prefix, sorted(aps)))
+        elif len(aps) != 1:
+            problems.append("%s is converted in %d steps (%s): every extra format hop rounds again" % (prefix, len(aps), sorted(aps)))
         return
     problems.append("%s: unexpected value %r" % (prefix, v))
+
+
+PRIMS = ("u8", "u16", "u32", "u64", "u128", "f32", "f64")
+
+
+def check_format_from_impls(F, rep):
+    """FORMAT-HOP: a `From` impl between two number formats of one colour type converts in ONE step: every `into_format`/`from_format` call in
+    its body produces the impl's own self type.  A detour through a third format (f64 -> f32 -> u8) rounds twice, which breaks
+    `nearest integer to value x MAX` near rounding ties and the 53-bit claim."""
+    n = 0
+    for b in F.bodies:
+        im = b.get("_impl")
+        if b["name"] != "from" or not im or not str(im.get("trait")).endswith("convert::From") or not im.get("trait_args_s"):
+            continue
+        dst, src = im["self_s"], im["trait_args_s"][0]
+        # same type constructor, differing only in primitive component types
+        strip = lambda t: re.sub(r"\b(%s)\b" % "|".join(PRIMS), "#", re.sub(r"(rgb::rgb::Rgb<\w+)>", r"\1, f32>", t))
+        if dst == src or strip(dst) != strip(src) or "#" not in strip(dst) or dst.startswith("std::boxed") or "[" in dst:
+            continue
+        n += 1
+        key = "From<%s> for %s" % (src, dst)
+        hops, comp = [], []
+        for node in facts.walk_all(b["body"]):
+            c = node.get("c") if isinstance(node, dict) else None
+            if isinstance(c, dict) and "k" not in c and c.get("n") in ("into_format", "from_format"):
+                hops.append((c["n"], F.S[node["t"]]))
+            elif isinstance(c, dict) and "k" not in c and c.get("n") in ("into_stimulus", "from_stimulus"):
+                comp.append((c["n"], F.S[node["t"]]))
+        norm = lambda t: re.sub(r"(rgb::rgb::Rgb<\w+)>", r"\1, f32>", t)
+        bad = [h for h in hops if norm(h[1]) != norm(dst)]
+        dprims = set(re.findall(r"\b(%s)\b" % "|".join(PRIMS), norm(dst)))
+        bad += [h for h in comp if h[1] not in dprims]
+        hops = hops or comp
+        if not hops:
+            rep.ob("FORMAT-HOP", key, False, "no into_format/from_format call found in the body (construct not recognised)", F.loc(b))
+        else:
+            rep.ob("FORMAT-HOP", key, not bad, ("intermediate format(s): " + ", ".join("%s -> %s" % h for h in bad)) if bad else
+                   "one hop: %s -> %s" % hops[0], F.loc(b))
+    rep.floor("format From impls", n, 16)
